@@ -33,9 +33,15 @@ func genHistory(r *Rng, spec *WorldSpec, n int, withCrash bool) []Op {
 	}
 	hasLogout := spec.Filters[0].Logout != nil
 	cb := spec.Filters[0].CallbackPath
+	// some clients send other applications' cookies (and valueless crumbs) in front of ours
+	for b := 0; b < 3; b++ {
+		if r.Chance(0.35) {
+			ops = append(ops, Op{ID: nid(), Kind: "client", B: b, Args: map[string]string{"noise": r.Pick([]string{"darkmode; lang=en", "theme=dark; _ga=GA1.2.3", ";; a=b", "x=\"y\"; flag", "consent"})}})
+		}
+	}
 	for i := 0; i < n; i++ {
 		b := r.Intn(2)
-		switch r.Intn(18) {
+		switch r.Intn(20) {
 		case 0, 1, 2:
 			ops = append(ops, Op{ID: nid(), Kind: "nav", B: b, Path: target})
 		case 3:
@@ -44,7 +50,14 @@ func genHistory(r *Rng, spec *WorldSpec, n int, withCrash bool) []Op {
 			ops = append(ops, Op{ID: nid(), Kind: "send", B: 2, Path: r.Pick(append(attackPaths, target)), S: r.Pick([]string{"none", "garbage", "empty", "malformed", "of:0", "of:1", "fixed:attackerchosen0000000000000000000000000000000000000000000000000000"})})
 		case 16:
 			// a live session id under a cookie name that is NOT the filter's: must not be honoured
-			ops = append(ops, Op{ID: nid(), Kind: "send", B: b, Path: target, S: "other-name:" + r.Pick([]string{"authservice-session-id-cookie", "__Host-authservice-session-id-cooki", "x__Host-authservice-session-id-cookie", "__Host-other-authservice-session-id-cookie", "__host-authservice-session-id-cookie"})})
+			ops = append(ops, Op{ID: nid(), Kind: "send", B: b, Path: target, S: r.Pick([]string{"other-name:authservice-session-id-cookie", "other-name:__Host-other-authservice-session-id-cookie", "name-variant:prefix-x", "name-variant:suffix-x", "name-variant:lower", "name-variant:drop-last", "name-variant:prefix-x-then-garbage"})})
+		case 18:
+			// the provider answers the next token request with 200 and a body that grants nothing
+			ops = append(ops, Op{ID: nid(), Kind: "idp-raw", S: r.Pick([]string{`{"error":"invalid_grant"}`, `{}`, `{"error":"invalid_grant","error_description":"Session not active"}`}), D: 1},
+				Op{ID: nid(), Kind: "adv", D: life + r.Range(1, 20)}, Op{ID: nid(), Kind: "send", B: b, Path: target, S: "own"}, Op{ID: nid(), Kind: "send", B: b, Path: target, S: "own"})
+		case 19:
+			// short pauses: a few seconds matter for short-lived access tokens
+			ops = append(ops, Op{ID: nid(), Kind: "adv", D: r.Range(1, 8)}, Op{ID: nid(), Kind: "send", B: b, Path: target, S: "own"})
 		case 17:
 			if r.Chance(0.5) {
 				ops = append(ops, Op{ID: nid(), Kind: "idp", Args: map[string]string{"byz": r.Pick([]string{"foreign-key-same-kid", "alg-none", "aud-foreign", "tampered-payload", ""}), "byz_on": "refresh"}})
@@ -88,7 +101,7 @@ func genC01(r *Rng, tier string, idx int) *Plan {
 	p.Spec = genSpec(r, genOpts{Filters: 1, AllowRedis: true, Triggers: true})
 	k := &p.Spec.IdPs[0].Knobs
 	k.IDTokenTTL = []int{60, 300, 600}[r.Intn(3)]
-	k.ExpiresIn = []int{60, 300, 600}[r.Intn(3)]
+	k.ExpiresIn = []int{2, 5, 60, 300, 600}[r.Intn(5)]
 	if r.Chance(0.7) && k.Refresh == "none" {
 		k.Refresh = "static"
 	}
